@@ -153,7 +153,15 @@ def fact_loops():
     return coq_list([coq_string(t) for _, t in out])
 
 
+def fact_label_parse():
+    """how the cut id is read off a label (both helpers) and how `bases` is ordered."""
+    a = _fn("_get_mapping_ids_by_partition")
+    b = _fn("_get_bases_by_partition")
+    return coq_list([coq_string(_assign_rhs(a, "decomp_id")), coq_string(_assign_rhs(b, "decomp_id")), coq_string(_assign_rhs(b, "bases"))])
+
+
 FACTS = [
+    ("c05_label_parse", "list string", fact_label_parse),
     ("c05_loops", "list string", fact_loops),
     ("c05_group_loop_calls", "list string", fact_group_loop_calls),
     ("c05_f2_guard", "list string", fact_f2_guard),
